@@ -354,6 +354,12 @@ class IntroVisitor(ast.NodeVisitor):
             self.inters.append(fi_or_p)
         # str is the underlying type of a DDSPath
         if fi_or_p is not None and isinstance(fi_or_p, str):
+            if self._gctx.resolved_references.get(fi_or_p) is None:
+                # Neither committed in the store nor produced by a call that comes before this one
+                raise DDSException(
+                    f"The path {fi_or_p} is loaded before the call that produces it in the same evaluation"
+                    f" (or is not produced at all). A path must be kept before it is loaded."
+                )
             self.load_paths.append(fi_or_p)
         self.generic_visit(node)
 
